@@ -13,7 +13,7 @@ const c04Rule = "C02's schedules, configurations and fault injection plus post-r
 // TestC04Completion: Get always completes and key locks are always released.
 func TestC04Completion(t *testing.T) {
 	runCheck(t, "C04", "C04Completion", c04Rule, func(c *Case) {
-		propFailoverSched(c, scenOpts{maxKeys: 3, minGets: 1, maxGets: 6, skipRead: true, clock: 3, external: 1, prefail: true, postActions: true, faults: 2, failPct: 40},
+		propFailoverSched(c, scenOpts{maxKeys: 3, minGets: 1, maxGets: 6, skipRead: true, clock: 3, external: 1, prefail: true, postActions: true, faults: 2, failPct: 40, errKinds: true},
 			func(w *world, sc *scenario, complete bool) {
 				w.checkQuiescence(sc, complete)
 
@@ -29,6 +29,13 @@ func TestC04Completion(t *testing.T) {
 				}
 			})
 	})
+}
+
+// checkQuiescenceLossy is checkQuiescence for scenarios with hash-colliding keys: an entry may be
+// displaced by a write to the colliding key, so "backend holds the last write" is not asserted.
+func (w *world) checkQuiescenceLossy(sc *scenario, complete bool) {
+	w.lossy = true
+	w.checkQuiescence(sc, complete)
 }
 
 // checkQuiescence is the C04 oracle.
@@ -48,7 +55,7 @@ func (w *world) checkQuiescence(sc *scenario, complete bool) {
 	last := map[string]interface{}{}
 	for k := 0; k < sc.nkeys; k++ {
 		if sc.states[k] != ksAbsent {
-			last[string(scenKeys[k])] = initToken(scenKeys[k])
+			last[string(sc.key(k))] = initToken(sc.key(k))
 		}
 	}
 
@@ -60,7 +67,7 @@ func (w *world) checkQuiescence(sc *scenario, complete bool) {
 
 	valid := map[string]bool{}
 	for k := 0; k < sc.nkeys; k++ {
-		valid[string(scenKeys[k])] = true
+		valid[string(sc.key(k))] = true
 	}
 
 	extDelete := c.classes["external-delete"]
@@ -72,7 +79,7 @@ func (w *world) checkQuiescence(sc *scenario, complete bool) {
 			c.Assert(tk == string(k), "value-under-wrong-key", "backend holds %v under key %s", v, keyName(k))
 		}
 
-		if !extDelete {
+		if !extDelete && !w.lossy {
 			c.Assert(valEq(w.be.Generic(), v, last[string(k)]), "backend-not-last-write", "backend holds %v under %s, last completed write was %v", v, keyName(k), last[string(k)])
 		}
 
@@ -81,7 +88,7 @@ func (w *world) checkQuiescence(sc *scenario, complete bool) {
 
 	// Black-box: the key can be built again.
 	for k := 0; k < sc.nkeys; k++ {
-		key := append([]byte{}, scenKeys[k]...)
+		key := append([]byte{}, sc.key(k)...)
 		_ = w.be.Delete(bg, key)
 		w.fe.ClearFailures()
 
